@@ -64,6 +64,28 @@ func c15Reconstruct(c *ctx) {
 			}
 		}
 	}
+	// the inner product factored into a private helper called from the interpolation loop:
+	// lagrangeCoefficient(xs, i) with its own loop over xs
+	if inner == nil {
+		for _, lo := range loops {
+			if lo == collect {
+				continue
+			}
+			for b := range lo.In {
+				for _, in := range b.Instrs {
+					call, ok := in.(*ssa.Call)
+					if !ok {
+						continue
+					}
+					if h := core.Callee(call); core.PrivateHelper(h) && !call.Call.IsInvoke() && h.Pkg == fn.Pkg {
+						if hl := loopsOf(h); len(hl) == 1 {
+							outer, inner = lo, hl[0]
+						}
+					}
+				}
+			}
+		}
+	}
 	key := fkey(rule, fn, "coordinates-and-terms-range-over-one-list")
 	if collect == nil || outer == nil || inner == nil {
 		c.r.Unk(rule, key, c.fpos(fn), fmt.Sprintf("loop structure not recognised (collect=%v outer=%v inner=%v)", collect != nil, outer != nil, inner != nil))
@@ -72,7 +94,7 @@ func c15Reconstruct(c *ctx) {
 	s1, s2 := rangeOf(collect), rangeOf(outer)
 	// the inner loop runs over the collected list
 	if xl := rangeOf(inner); xl != nil {
-		xsFinal = xl
+		xsFinal = core.ResolveIn(fn, xl)
 	}
 	okSame := s1 != nil && s2 != nil && s1 == s2
 	okInner := false
@@ -91,7 +113,7 @@ func c15Reconstruct(c *ctx) {
 	// the inner loop skips only j == i
 	skipOK := false
 	for b := range inner.In {
-		if coverageAgainst(inner, b, outer) {
+		if coverageAgainst(fn, inner, b, outer) {
 			skipOK = true
 		}
 	}
@@ -110,7 +132,7 @@ func valDescr(v ssa.Value) string {
 
 // coverageAgainst: block b of loop `in` executes for every index except the one equal to the index of
 // loop `out` (if j == i { continue }).
-func coverageAgainst(in *core.Loop, b *ssa.BasicBlock, out *core.Loop) bool {
+func coverageAgainst(fn *ssa.Function, in *core.Loop, b *ssa.BasicBlock, out *core.Loop) bool {
 	n := 0
 	ok := false
 	for _, f := range core.FactsAt(b) {
@@ -119,8 +141,10 @@ func coverageAgainst(in *core.Loop, b *ssa.BasicBlock, out *core.Loop) bool {
 		}
 		n++
 		if f.Kind == core.FInt && f.Ord&core.EQ == 0 {
+			// the outer index may arrive as an argument of the helper holding the inner loop
 			x, y := core.Strip(f.X), core.Strip(f.Y)
-			if (x == core.Strip(in.Idx) && y == core.Strip(out.Idx)) || (y == core.Strip(in.Idx) && x == core.Strip(out.Idx)) {
+			rx, ry := core.ResolveIn(fn, x), core.ResolveIn(fn, y)
+			if (x == core.Strip(in.Idx) && ry == core.Strip(out.Idx)) || (y == core.Strip(in.Idx) && rx == core.Strip(out.Idx)) {
 				ok = true
 			}
 		}
